@@ -380,42 +380,40 @@ def remove_qubit(tableau, qubit_position, measurement_determinism="probabilistic
             i for i in range(n_qubits) if tableau.destabilizer_x[i, qubit_position] != 0
         ]
         assert len(non_zero) > 0
-        if len(non_zero) == 1:
-            new_table = np.delete(
-                new_table, [non_zero[0], non_zero[0] + n_qubits], axis=0
+        omit_index = non_zero[0]
+        # clear the x entry of the other destabilizers; the paired stabilizer rows are multiplied the other
+        # way round, so that every destabilizer stays paired with its stabilizer and the stabilizer row
+        # paired with omit_index becomes +/- Z on the qubit to be removed
+        update_list = []
+        for row in non_zero[1:]:
+            update_list.append((omit_index, row))
+            update_list.append((row + n_qubits, omit_index + n_qubits))
+        # that row then clears the z entry of the remaining stabilizer rows, which keeps their signs right
+        # when the column is dropped
+        for row in range(n_qubits, 2 * n_qubits):
+            if row != omit_index + n_qubits and tableau.table_z[row, qubit_position] != 0:
+                update_list.append((omit_index + n_qubits, row))
+        for row_to_add, target_row in update_list:
+            (
+                tableau.table_x,
+                tableau.table_z,
+                tableau.phase,
+                tableau.iphase,
+            ) = row_sum(
+                tableau.table_x,
+                tableau.table_z,
+                tableau.phase,
+                tableau.iphase,
+                row_to_add,
+                target_row,
             )
-            new_phase = np.delete(tableau.phase, [non_zero[0], non_zero[0] + n_qubits])
-            new_iphase = np.delete(
-                tableau.iphase, [non_zero[0], non_zero[0] + n_qubits]
-            )
-        else:
-            omit_index = non_zero[0]
-            # remove first element from the non_zero list
-            non_zero = non_zero[1:]
-            # update tableau
-            for row in non_zero:
-                (
-                    tableau.table_x,
-                    tableau.table_z,
-                    tableau.phase,
-                    tableau.iphase,
-                ) = row_sum(
-                    tableau.table_x,
-                    tableau.table_z,
-                    tableau.phase,
-                    tableau.iphase,
-                    omit_index,
-                    row,
-                )
-            # remove columns and then rows
-            new_table = np.delete(
-                tableau.table, [qubit_position, qubit_position + n_qubits], axis=1
-            )
-            new_table = np.delete(
-                new_table, [omit_index, omit_index + n_qubits], axis=0
-            )
-            new_phase = np.delete(tableau.phase, [omit_index, omit_index + n_qubits])
-            new_iphase = np.delete(tableau.iphase, [omit_index, omit_index + n_qubits])
+        # remove columns and then rows
+        new_table = np.delete(
+            tableau.table, [qubit_position, qubit_position + n_qubits], axis=1
+        )
+        new_table = np.delete(new_table, [omit_index, omit_index + n_qubits], axis=0)
+        new_phase = np.delete(tableau.phase, [omit_index, omit_index + n_qubits])
+        new_iphase = np.delete(tableau.iphase, [omit_index, omit_index + n_qubits])
     tableau.shrink(new_table, new_phase, new_iphase)
     return tableau
 
